@@ -22,8 +22,7 @@ IniFile::IniFile(const String& fname, bool shouldwrite)
 	while(!file.end())
 	{
 		String line=file.readLine();
-		if (shouldwrite)
-			_lines << line;
+		_lines << line;
 		if(!line.ok())
 			continue;
 
